@@ -223,7 +223,12 @@ class World:
         entry = ENTRIES[di][ei % len(ENTRIES[di])]
         base = TEXT_POOL[di][ti % len(TEXT_POOL[di])]
         vs = variants(base)
-        return mod, di, entry, vs[vi % len(vs)]
+        t = vs[vi % len(vs)]
+        if (mi + ei + ti + vi) % 2:
+            # half of the calls get a text object of their own that nobody keeps (the next such text may live
+            # at the same address); the other half share the pooled object across calls and modules
+            t = ''.join(list(t))
+        return mod, di, entry, t
 
     def op_parse(self, mi, ei, ti, vi, pos, fullparse):
         mod, di, entry, text = self.pick(mi, ei, ti, vi)
